@@ -64,6 +64,7 @@ pub struct Scen {
 	pub sched: bool,
 	pub wp: bool,
 	pub schedule: Vec<usize>,
+	pub pct: Option<(Vec<usize>, Vec<usize>)>, // priority scheduling: thread priorities (highest first), demotion steps
 	pub hist: Vec<(usize, Op)>,
 	pub progs: Vec<(usize, Vec<Op>)>, // Level B: per-thread programs
 }
@@ -151,6 +152,12 @@ pub fn parse(lines: &[String]) -> Scen {
 				sc.pre.push((l, st));
 			}
 			"f1" => sc.f1 = t[1..].iter().map(|x| us(x)).collect(),
+			"pct" => {
+				let cpos = t.iter().position(|x| *x == "c").unwrap_or(t.len());
+				let pr = t[1..cpos].iter().map(|x| us(x)).collect();
+				let ch = if cpos < t.len() { t[cpos + 1..].iter().map(|x| us(x)).collect() } else { vec![] };
+				sc.pct = Some((pr, ch));
+			}
 			"unw" => sc.unw = t[1..].iter().map(|x| us(x)).collect(),
 			"fp" => {
 				let mut i = 1;
